@@ -21,7 +21,7 @@ PROPS = {
     'C02': dict(title='OPEN handshake: exactly the valid OPENs are accepted', l0=True, live=True, lean=['CoreBGP.Props.C02', 'CoreBGP.Props.C02b', 'CoreBGP.Props.C15'],
         trivial=[r'^open\.dec/err\.1\.2$', r'^open\.val/undecodable$'],
         rule='L0 differential on openMessage.decode / validate: field grids (version x AS field x hold x identifier nibble x capability) crossed with (local AS, remote AS, id) classes, grammar-generated parameter layouts, truncations and length-octet nudges, random bodies up to 4077'),
-    'C16': dict(title='UpdateDecoder partitions an UPDATE exactly as its length fields dictate', l0=True, lean=['CoreBGP.Props.C16'],
+    'C16': dict(title='UpdateDecoder partitions an UPDATE exactly as its length fields dictate', l0=True, lean=['CoreBGP.Props.C16', 'CoreBGP.Props.C16B'],
         trivial=[r'^upd/c0\.'], rule='L0 differential on UpdateDecoder.Decode with recording callbacks: every byte string up to length 5 (thorough 6) over a 6-letter protocol alphabet, grammar-generated and mutated bodies, bodies to 4077 and above 65535; non-trivial = at least one callback ran'),
     'C17': dict(title='UpdateDecoder reports errors with the RFC 7606 approach they require', l0=True, lean=['CoreBGP.Props.C17'],
         trivial=[r'^upd/c0\.'], rule='as C16 crossed with scripted callback behaviours (nil / discard / withdraw / notification / foreign error trees at each slot) and random error trees (depth<=6, errors.Join and %w) for UpdateNotificationFromErr'),
